@@ -97,3 +97,68 @@ Proof.
   destruct (beq _ _) eqn:B; [|discriminate]. intros H. inversion H.
   apply negb_false_iff, N.eqb_eq in M, S. apply beq_eq in B. auto.
 Qed.
+
+(* ------------------------------------------------------------------ *)
+(* composite ML-DSA keys (transcribed in the fourth round)             *)
+(* ------------------------------------------------------------------ *)
+Section Composite.
+Variable L : stdlib.
+
+(* what an accepted composite key is made of: both nested key data were
+   accepted by the parser of their own type (prefix RAW, no id requirement),
+   the nested ML-DSA key is of the composite's instance, the combination is a
+   supported one, and the classical key object has exactly the parameters the
+   classical algorithm prescribes *)
+Theorem composite_parts private kd prefix idreq d :
+  parse_composite L private kd prefix idreq = Ok d ->
+  let fs := fields_or_nil (kd_value kd) in
+  let inst := get_u32 1 (get_sub 4 fs) in
+  let alg := get_u32 2 (get_sub 4 fs) in
+  let mkd := keydata_of (get_sub 2 fs) in
+  let ckd := keydata_of (get_sub 3 fs) in
+  kd_mat kd = (if private then km_private else km_public)
+  /\ composite_supported inst alg = true
+  /\ (if private then parse_mldsa_priv L mkd pt_raw 0 = Ok PMlDsaPriv /\ get_u32 1 (get_sub 3 (get_sub 3 (fields_or_nil (kd_value mkd)))) = inst
+      else parse_mldsa_pub mkd pt_raw 0 = Ok PMlDsaPub /\ get_u32 1 (get_sub 3 (fields_or_nil (kd_value mkd))) = inst)
+  /\ exists cd, parse_key_base L ckd pt_raw 0 = Ok cd /\ composite_of_classical private alg cd = Ok d.
+Proof.
+  unfold parse_composite. cbv zeta.
+  destruct (negb (kd_mat kd =? _)) eqn:M; [discriminate|]. destruct (negb (wire_ok _ _)); [discriminate|].
+  match goal with |- (if negb ?c then Err else _) = Ok _ -> _ => destruct c eqn:C; [|discriminate] end. cbn [negb].
+  intros H. apply bind_ok in H. destruct H as [m [Hm H]]. revert H.
+  match goal with |- (if ?c then Err else _) = Ok _ -> _ => destruct c; [discriminate|] end.
+  intros H. apply bind_ok in H. destruct H as [cd [Hc H]]. revert H.
+  match goal with |- (if negb ?c then Err else _) = Ok _ -> _ => destruct c eqn:I; [|discriminate] end. cbn [negb]. intros H.
+  apply negb_false_iff, N.eqb_eq in M. apply N.eqb_eq in I.
+  rewrite !andb_true_iff in C. destruct C as [[[_ S] _] _].
+  split; [exact M|]. split; [exact S|]. split; [|exists cd; auto].
+  destruct private.
+  - destruct (url_is _ u_mldsa_priv); [|discriminate]. split; [|exact I].
+    rewrite Hm. f_equal. destruct (mldsa_priv_consistent L _ _ _ _ Hm) as (_ & _ & _ & E). exact E.
+  - destruct (url_is _ u_mldsa_pub); [|discriminate]. split; [|exact I].
+    rewrite Hm. f_equal. revert Hm. unfold parse_mldsa_pub.
+    repeat match goal with |- (if ?c then Err else _) = Ok _ -> _ => destruct c; [discriminate|] end.
+    intros Hm. apply okb_ok in Hm. apply Hm.
+Qed.
+
+(* strength of the classical half: RSA moduli of 3072 or 4096 bits with e = 65537,
+   ECDSA with a hash at least as strong as the curve and DER signatures *)
+Theorem composite_classical_strength private alg cd d :
+  composite_of_classical private alg cd = Ok d ->
+  match cd with
+  | PRsaPssPub bits e _ _ | PRsaPkcs1Pub bits e _ | PRsaPriv _ bits e _ _ => (bits = 3072 \/ bits = 4096) /\ e = 65537
+  | PEcdsaPub c h enc _ | PEcdsaPriv c h enc _ _ => curve_level c <= hash_level h /\ enc = enc_der
+  | _ => True
+  end.
+Proof.
+  unfold composite_of_classical.
+  destruct cd; try exact (fun _ => I); try (destruct pss); intros H; apply okb_ok in H; destruct H as [C _];
+    unfold comp_pss_ok, comp_pkcs1_ok, comp_ecdsa_ok, rsa_f4, comp_rsa_bits_a, comp_rsa_bits_b,
+      calg_rsa3072_pss, calg_rsa4096_pss, calg_rsa3072_pkcs1, calg_rsa4096_pkcs1,
+      calg_ecdsa_p256, calg_ecdsa_p384, calg_ecdsa_p521, c_p256, c_p384, c_p521, h_sha256, h_sha384, h_sha512, enc_der in *;
+    rewrite ?andb_true_iff, ?orb_true_iff, ?andb_true_iff in C; rewrite ?N.eqb_eq in C;
+    unfold curve_level, hash_level;
+    repeat match goal with H : _ /\ _ |- _ => destruct H | H : _ \/ _ |- _ => destruct H end; subst; cbn; lia.
+Qed.
+
+End Composite.
